@@ -3,6 +3,7 @@ package core
 import (
 	"context"
 	"errors"
+	"fmt"
 	"io"
 	"net"
 	"net/http"
@@ -80,7 +81,7 @@ func zzRetryKernel(focus int) {
 	bodyLen := 0
 	var bodyBytes []byte
 	r := &http.Request{Method: "POST", Header: http.Header{}}
-	if focus == zzFocusC01 {
+	if focus == zzFocusC01 || focus == zzFocusC04 {
 		bodyLen = gosym.Param("BODY")
 		bodyBytes = gosym.Bytes("body", bodyLen)
 		r.Body = io.NopCloser(&zzReader{data: append([]byte{}, bodyBytes...)})
@@ -131,17 +132,17 @@ func zzRetryKernel(focus int) {
 					gosym.Assert(ep.Status.IsRoutable(), "C03: the dispatched endpoint is routable")
 					gosym.Assert(!connFailed[ep.Name], "C03: an endpoint that failed at connection level is not tried again in this request")
 				}
-				if focus == zzFocusC01 && rq.Body != nil {
+				if (focus == zzFocusC01 || focus == zzFocusC04) && rq.Body != nil {
 					got, _ := io.ReadAll(rq.Body)
-					gosym.Assert(len(got) == bodyLen, "C01: every attempt can read a body of the original length")
+					gosym.Assert(len(got) == bodyLen, "C01/C04: every attempt can read a body of the original length")
 					if len(got) == bodyLen {
 						same := true
 						for i := range got {
 							same = gosym.And(same, got[i] == bodyBytes[i])
 						}
-						gosym.Assert(same, "C01: every attempt reads the original body bytes")
+						gosym.Assert(same, "C01/C04: every attempt reads the original body bytes")
 					}
-					gosym.Assert(rq.Method == "POST", "C01: method unchanged on every attempt")
+					gosym.Assert(rq.Method == "POST", "C01/C04: method unchanged on every attempt")
 				}
 				lastOK = false
 				wrote := gosym.Choice("wrote", 3) // 0 nothing, 1 status line, 2 status + body bytes
@@ -176,7 +177,20 @@ func zzRetryKernel(focus int) {
 					if wrote >= 1 {
 						startedBefore = true
 					}
-					return errors.New("upstream said something odd: boom")
+					st.TotalBytes = 0
+					if wrote == 2 {
+						st.TotalBytes = 2
+					}
+					switch gosym.Choice("othererr", 4) {
+					case 0:
+						return errors.New("upstream said something odd: boom")
+					case 1: // body ended early (clean close mid-response)
+						return fmt.Errorf("request failed after 0.1s: %w", io.ErrUnexpectedEOF)
+					case 2: // the client went away
+						return fmt.Errorf("request cancelled after 0.1s - client disconnected: %w", context.Canceled)
+					default: // malformed answer
+						return errors.New("malformed HTTP response \"garbage\"")
+					}
 				}
 			})
 	}()
